@@ -1,14 +1,18 @@
-"""C03 - STV count invariants (every count), Gregory transfers; model trace vs implementation trace."""
+"""C03 - STV count invariants (every count); model trace vs implementation trace.
+Gregory transfers here; the Hare (random whole-ballot) transferer with its draws replayed as an oracle in props/c03_hare.py."""
 import itertools
 from fractions import Fraction
 import common
 from common import sx, q, jq, ok, cname, cnum
 from units import U
+import props.c03_hare as c03_hare
 
 ID = 'C03'
 LEVEL = 'proof'
 TIE = {'sequential.TransferableVoteDistributor / TransferableVoteSelector, initial_allocation': 'correspondence (count by count)',
        'transfer.ranked_next / SimpleVoteTransferer / Gregory': 'correspondence (count by count)',
+       'transfer.Hare / distribute_n_random (draws = oracle argument of Model/STVHare.v)':
+           'correspondence (count by count, on the recorded draws; every allocation compared with its key and pile order)',
        'component/quota.py': 'translator (C02)'}
 RULE = ('corpus; random ranked profiles: 2..6 candidates, 1..10 distinct ballots with truncation, shared ranks (20 %), '
         'zero-first-preference candidates, exhausted-heavy profiles, weights 1..50 and x1e20; n_seats 1..|C|; quota in '
@@ -16,8 +20,19 @@ RULE = ('corpus; random ranked profiles: 2..6 candidates, 1..10 distinct ballots
         '(max_seats = 1 each) and distributor form (max_seats 1..3). The implementation is driven count by count through the public '
         'next_count; after EVERY count the totals per candidate and the newly elected are compared with the model trace and the '
         'invariants (conservation incl. one quota per quota seat, non-negativity, resting place of ballots without shared ranks, '
-        'election rule, elimination rule) are evaluated on the real allocation. non-trivial = more than one count; distinct by case hash')
-PARTIAL = ['Hare (random) transfers: not modelled; covered by invariant checks on the implementation only (seeded stream)']
+        'election rule, elimination rule) are evaluated on the real allocation. non-trivial = more than one count; distinct by case hash. '
+        'Hare transferer (props/c03_hare.py): 3..7 candidates, 3..14 ballots with whole weights 1..240, shared ranks 30 %, 1..6 seats, '
+        'quota in {droop x6, hare, hagenbach_bischoff, none}, caps 1 or 1..3; draws from the Mersenne Twister with seed in '
+        '{0..5, 17, None} or invented (first k, last k, evenly spread, harness rng) - recorded once, then replayed to the '
+        'implementation (proxy for votelib.component.transfer.random, no source change) and given to the extracted model as its oracle; '
+        'boundary stream: shared ranks whose weight does not divide, piles exactly at the quota, several elected in one count, a whole / '
+        'fractional Fraction quota, zero-weight ballots, caps above one; compared after every count: the whole allocation (key order, '
+        'pile order, weights), the newly elected in order, the stop and the number of unconsumed draws; the invariants incl. whole '
+        'weights are evaluated on the real allocations; non-trivial = at least one draw')
+PARTIAL = ['Hare transferer: modelled for whole non-negative ballot weights (a pile with a fractional weight takes the '
+           'denominator-scaling path of distribute_n_random: HS_unmodelled, proved unreachable from whole votes); '
+           'LargestRemainder inside distribute_n_random(limit_by_weight=True) is modelled as the identity it is on a sample without '
+           'repetition (checked at every recorded call)']
 TRUSTED = []
 QN = {1: 'hare', 3: 'droop', 4: 'hagenbach_bischoff'}
 
@@ -117,7 +132,7 @@ def canon(c, wire):
 
 
 # ---------------------------------------------------------------- invariants on the real allocation
-def make_checker(c, problems):
+def make_checker(c, problems, whole=False):
     import votelib.component.transfer as tr
     state = dict(quota_seats=0)
     cf = c['cfg']
@@ -167,6 +182,8 @@ def make_checker(c, problems):
                     problems.append('negative weight')
                 if isinstance(w, float):
                     problems.append('float weight')
+                if whole and q(w).denominator != 1:
+                    problems.append('whole-ballot transfer left the fractional weight %s' % w)
                 if not any(isinstance(i, frozenset) for i in b):
                     cont = [x for x in new if x is not None]
                     first = next((i for i in b if i in cont), None)
@@ -380,7 +397,8 @@ def gen_boundary(rng, count, selector_only=False):
 def corpus():
     import os, json, glob
     for p in sorted(glob.glob(os.path.join(common.VERIF, 'corpus', ID, '*.json'))):
-        yield json.load(open(p))
+        if not os.path.basename(p).startswith('hare-'):      # the Hare cases (with their draws) run in props/c03_hare.py
+            yield json.load(open(p))
 
 
 def explore(ctx, widen=1):
@@ -388,7 +406,10 @@ def explore(ctx, widen=1):
     ctx.differential('corpus', corpus(), model_line, impl, **kw)
     ctx.differential('random', gen(ctx.rng, ctx.n(1500, 25000) * widen), model_line, impl, **kw)
     ctx.differential('boundary', gen_boundary(ctx.rng, ctx.n(900, 12000) * widen), model_line, impl, **kw)
+    c03_hare.explore(ctx, widen)
 
 
 def replay(ctx, case, stream=None):
+    if case.get('unit') == 'stv_hare':
+        return c03_hare.replay(ctx, case)
     ctx.differential('replay', [case], model_line, impl, canon=canon, nontrivial=nontrivial, spec=spec, known_class=known_class)
